@@ -21,7 +21,19 @@ type propC17 struct{}
 func init() { RegisterProperty(propC17{}) }
 
 func (propC17) ID() string      { return "C17" }
-func (propC17) Modes() []string { return []string{"isolation", "history"} }
+func (propC17) Modes() []string { return []string{"isolation", "history", "coldstart"} }
+
+// coldRPC: mode "coldstart#<i>" names the route a cold-start process hammers.
+func coldRPC(mode string) (int, bool) {
+	if !strings.HasPrefix(mode, "coldstart") {
+		return 0, false
+	}
+	n := 0
+	if i := strings.Index(mode, "#"); i >= 0 {
+		fmt.Sscanf(mode[i+1:], "%d", &n)
+	}
+	return n, true
+}
 
 func (propC17) Draw(rt *rapid.T, w *WorldDesc, mode string) *Plan {
 	p := &Plan{Race: true}
@@ -45,6 +57,35 @@ func (propC17) Draw(rt *rapid.T, w *WorldDesc, mode string) *Plan {
 			}
 		}
 		p.Clients = append(p.Clients, opts)
+	}
+	coldIdx, cold := coldRPC(mode)
+	if cold {
+		// Cold start: the first requests of a process, all in flight together on ONE route (the
+		// runner process executes only a handful of such plans, so lazily built process-wide
+		// state - parse-once tables, reverse lookup maps, converter caches - is still unbuilt when
+		// several requests reach it). Well-formed calls with payloads of their own.
+		md := methods[coldIdx%len(methods)]
+		rpc := w.RPC(md.Key)
+		nOps := rapid.IntRange(2, 6).Draw(rt, "nOps")
+		for i := 0; i < nOps; i++ {
+			op := &Op{ID: i, RPC: md.Key, Client: "go", Server: "go"}
+			op.ClientIdx = rapid.IntRange(0, nClients-1).Draw(rt, fmt.Sprintf("op%d.client", i))
+			op.Opts = append(op.Opts, Opt{Kind: "header", Key: "X-Marker", Value: fmt.Sprintf("op%d", i)})
+			for hi, h := range rpc.Headers {
+				op.Opts = append(op.Opts, Opt{Kind: "header", Key: h.Name, Value: ValidHeaderValue(h, i+hi)})
+			}
+			req := drawReq(rt, w, md, fmt.Sprintf("op%d.req", i))
+			op.ReqBin = mustMarshal(req)
+			op.ReqJSON = jsonOf(req)
+			resp := NewFilled(rt, md.NewResp, fmt.Sprintf("op%d.resp", i), nil)
+			op.RespBin = mustMarshal(resp)
+			op.App = AppBehaviour{Kind: "respond"}
+			op.ReqChunks = drawChunks(rt, fmt.Sprintf("op%d.reqChunks", i))
+			op.RespChunks = drawChunks(rt, fmt.Sprintf("op%d.respChunks", i))
+			p.Ops = append(p.Ops, op)
+		}
+		p.Schedule = rapid.SliceOfN(rapid.IntRange(0, 15), 0, 600).Draw(rt, "sched")
+		return p
 	}
 	switch mode {
 	case "isolation":
